@@ -15,7 +15,21 @@ int main(void) {
       monotone = 0;
     }
   }
-  printf("{\"optFilterLongMask\": %u, \"optFilterShortMask\": %u, \"optFilterLongThreshold\": %ld, "
+  /* T1Y: coap_opt_encode_size() EVALUATED over 0..65535 in each argument: the least delta / length that needs one and
+   * two extension bytes, and whether the size is monotone in each (= two threshold tests). */
+  long d1 = 65536, d2 = 65536, l1 = 65536, l2 = 65536;
+  int encMono = 1;
+  for (long v = 0; v <= 65535; v++) {
+    size_t sd = coap_opt_encode_size((uint16_t)v, 0), sl = coap_opt_encode_size(0, (size_t)v) - (size_t)v;
+    if (sd == 2 && d1 == 65536) d1 = v;
+    if (sd == 3 && d2 == 65536) d2 = v;
+    if (sl == 2 && l1 == 65536) l1 = v;
+    if (sl == 3 && l2 == 65536) l2 = v;
+    if (sd != (size_t)(1 + (v >= d1) + (v >= d2)) || sl != (size_t)(1 + (v >= l1) + (v >= l2))) encMono = 0;
+  }
+  printf("{\"optDeltaExt1\": %ld, \"optDeltaExt2\": %ld, \"optLenExt1\": %ld, \"optLenExt2\": %ld, \"optEncodeThresholds\": %d,\n",
+         d1, d2, l1, l2, encMono);
+  printf(" \"optFilterLongMask\": %u, \"optFilterShortMask\": %u, \"optFilterLongThreshold\": %ld, "
          "\"optFilterLongMonotone\": %d}\n",
          (unsigned)(LONG_MASK), (unsigned)(SHORT_MASK) & 0xffffu, thr, monotone);
   return 0;
